@@ -108,6 +108,8 @@ class TokenParser(object):
     def _parse_escape_sequence(self):  # type: () -> str
         if self._next_ in ['"', "'"]:
             sequence = self._next_
+        elif self._next_ is None:
+            sequence = "\\"
         else:
             sequence = "\\" + self._next_
 
